@@ -1124,11 +1124,19 @@ class Executor:
         invs = self.invariants_for(key)
         q = self.c.qualname
         outs_all = []
-        for st1, it in self.eval_fork(s.iter, st):
+        # `for i, x in enumerate(seq)`: iterate over seq, the target receives the pair (k, seq[k])
+        is_enum = (isinstance(s.iter, ast.Call) and isinstance(s.iter.func, ast.Name) and s.iter.func.id == "enumerate" and len(s.iter.args) == 1
+                   and not s.iter.keywords and "enumerate" not in st.env)
+        for st1, it in (self.eval_fork(s.iter.args[0], st) if is_enum else self.eval_fork(s.iter, st)):
             it = st1.deref(it)
             # ghost index name: k_<target> for simple targets, else k_<loop ordinal>
             gname = "k_" + (s.target.id if isinstance(s.target, ast.Name) else key.replace("#", ""))
-            if isinstance(it, RangeV):
+            if is_enum:
+                if not isinstance(it, SeqV):
+                    raise VCError(f"enumerate over {type(it).__name__} at line {s.lineno}")
+                n_iter = to_z3(it.len)
+                elem = lambda k, it=it: TupleV([k, it.at(k)])
+            elif isinstance(it, RangeV):
                 n_iter = self.range_len(it)
                 elem = lambda k, it=it: to_z3(it.start) + k * it.step
             elif isinstance(it, SeqV):
